@@ -130,6 +130,10 @@ func ClearRules() error {
 func LoadRules(rules []*Rule) (bool, error) {
 	rulesMap := make(map[string]*Rule, 16)
 	for _, rule := range rules {
+		if rule == nil || rule.Rule == nil {
+			// a rule without the embedded circuit breaker rule has no resource: invalid, ignore it
+			continue
+		}
 		rulesMap[rule.Resource] = rule
 	}
 	updateRuleMux.Lock()
@@ -183,15 +187,21 @@ func onResourceRuleUpdate(res string, rule *Rule) (err error) {
 		}
 	}()
 
-	circuitRule := rule.Rule
-	if err = IsValidRule(rule); err != nil {
+	if err = IsValidRule(rule); err == nil {
+		err = circuitbreaker.IsValidRule(rule.Rule)
+	}
+	if err != nil {
 		logging.Warn("[Outlier onResourceRuleUpdate] Ignoring invalid outlier ejection rule", "rule", rule, "err", err.Error())
+		// The load replaces the rule of this resource: an invalid rule leaves it without any rule.
+		updateMux.Lock()
+		delete(nodeBreakers, res)
+		delete(breakerRules, res)
+		delete(outlierRules, res)
+		updateMux.Unlock()
+		currentRules[res] = rule
 		return
 	}
-	if err = circuitbreaker.IsValidRule(circuitRule); err != nil {
-		logging.Warn("[Outlier onRuleUpdate] Ignoring invalid rule when loading new rules", "rule", rule, "err", err.Error())
-		return
-	}
+	circuitRule := rule.Rule
 
 	start := util.CurrentTimeNano()
 	breakers := getNodeBreakersOfResource(res)
@@ -265,6 +275,9 @@ func ClearRuleOfResource(res string) error {
 func IsValidRule(r *Rule) error {
 	if r == nil {
 		return errors.New("nil Rule")
+	}
+	if r.Rule == nil {
+		return errors.New("nil circuit breaker Rule")
 	}
 	if len(r.Resource) == 0 {
 		return errors.New("empty resource name")
